@@ -49,6 +49,29 @@ Theorem C06_L4_read_pmt : forall c pid items,
 Proof. exact read_pmt_ok. Qed.
 Print Assumptions C06_L4_read_pmt.
 
+(* ... and whatever follows the packets that carry the unit (the next repetition of the PMT, other programs, garbage,
+   a truncated packet) is irrelevant: the reader has returned *)
+Theorem C06_L4_read_pmt_then_anything : forall c pid items tail,
+  wf_carrier c -> sstreams (sec c) <> [] ->
+  Forall (wf_item pid) items ->
+  (exists n, concat (chunks items) = ser_unit c ++ repeatN 255 n) ->
+  cuts_ok c items ->
+  read_pmt (packetise pid items ++ tail) pid = Ok (sec_result (sec c)).
+Proof. exact read_pmt_then_anything. Qed.
+Print Assumptions C06_L4_read_pmt_then_anything.
+
+(* an INTERRUPTED transmission (packets carrying only a proper prefix of the payload of one PMT, then a new
+   payload_unit_start) followed by a complete transmission: the reader restarts and returns the complete one *)
+Theorem C06_L4_read_pmt_after_interrupted : forall ca cb pid items_a items_b tail,
+  wf_carrier ca -> wf_carrier cb -> sstreams (sec cb) <> [] ->
+  Forall (wf_item pid) items_a -> Forall (wf_item pid) items_b ->
+  (exists R n, concat (chunks items_a) ++ R = ser_unit ca ++ repeatN 255 n) ->
+  len (concat (chunks items_a)) < len (ser_unit ca) -> cuts_ok ca items_a ->
+  (exists n, concat (chunks items_b) = ser_unit cb ++ repeatN 255 n) -> cuts_ok cb items_b ->
+  read_pmt (packetise pid items_a ++ packetise pid items_b ++ tail) pid = Ok (sec_result (sec cb)).
+Proof. exact read_pmt_after_interrupted. Qed.
+Print Assumptions C06_L4_read_pmt_after_interrupted.
+
 (* without preceding sections EVERY split is a packetisation: no condition on the cut points *)
 Theorem C06_L4_read_pmt_any_split : forall c pid items,
   wf_carrier c -> pre c = [] -> sstreams (sec c) <> [] -> Forall (wf_item pid) items ->
@@ -63,6 +86,10 @@ Theorem C06_L4_read_pmt_decidable : forall c pid items, hyp_readb c pid items = 
   read_pmt (packetise pid items) pid = Ok (sec_result (sec c)).
 Proof. exact hyp_readb_sound. Qed.
 Print Assumptions C06_L4_read_pmt_decidable.
+Theorem C06_L4_after_interrupted_decidable : forall ca cb pid la lb tail, hyp_interruptedb ca cb pid la lb = true ->
+  read_pmt (packetise pid la ++ packetise pid lb ++ tail) pid = Ok (sec_result (sec cb)).
+Proof. exact hyp_interruptedb_sound. Qed.
+Print Assumptions C06_L4_after_interrupted_decidable.
 Theorem C06_wf_carrier_decidable : forall c, wf_carrierb c = true -> wf_carrier c.
 Proof. exact wf_carrierb_sound. Qed.
 Print Assumptions C06_wf_carrier_decidable.
